@@ -288,7 +288,11 @@ pub fn build_with(scn: &MScn, pre: Option<&[ObjectFile]>) -> Result<World, Strin
         let got = match d {
             DevSpec::Script(s) => {
                 let dev = ScriptDev::new(ix, log.clone(), s.clone(), Some(sim.mcr().clone()));
-                sim.device_handler.add_device(dev, &s.ports).map_err(|_| format!("script device {i}: ports rejected"))?
+                match s.wrap {
+                    1 => sim.device_handler.add_device(Arc::new(std::sync::RwLock::new(dev)), &s.ports).map_err(|_| format!("script device {i}: ports rejected"))?,
+                    2 => sim.device_handler.add_device(Arc::new(Mutex::new(dev)), &s.ports).map_err(|_| format!("script device {i}: ports rejected"))?,
+                    _ => sim.device_handler.add_device(dev, &s.ports).map_err(|_| format!("script device {i}: ports rejected"))?,
+                }
             }
             DevSpec::Timer(t) => {
                 let mut td = if t.incl { TimerDevice::new(t.seed, t.lo..=t.hi, t.vect, t.prio) } else { TimerDevice::new(t.seed, t.lo..t.hi, t.vect, t.prio) };
